@@ -45,6 +45,8 @@ type Contract struct {
 	Loops      map[int]*LoopSpec
 	Inline     bool
 	Trusted    bool
+	GhostSets  []GhostSet
+	AtCall     map[string][]Clause // callee short name -> extra obligations at this function's calls of it
 	Pure       bool // interface method / external: the result depends only on receiver identity and arguments
 	NoBody     bool // interface method or external: contract only
 	External   bool // contract of a function outside the module (assumed, never verified)
@@ -72,6 +74,12 @@ type Lemma struct {
 }
 
 // Macro is a specification-level definition: name(params) = expr, expanded by the evaluator.
+// GhostSet: a ghost assignment executed at function exit.
+type GhostSet struct {
+	Name string
+	Clause
+}
+
 type Macro struct {
 	Name   string
 	Pkg    string
@@ -87,7 +95,7 @@ type ContractFile struct {
 }
 
 var clauseKeywords = map[string]bool{"requires": true, "ensures": true, "claims": true, "modifies": true, "panics_when": true, "loop": true,
-	"inline": true, "trusted": true, "nobody": true, "var": true, "assume": true, "prove": true, "props": true, "apply": true, "reveal": true, "unroll_calls": true, "bounded": true, "split": true, "pure_param": true, "impl": true, "pure": true}
+	"inline": true, "trusted": true, "nobody": true, "var": true, "assume": true, "prove": true, "props": true, "apply": true, "reveal": true, "unroll_calls": true, "bounded": true, "split": true, "pure_param": true, "impl": true, "pure": true, "at_call": true, "ghost_set": true}
 
 func parseContractFile(path, pkgPath string) (*ContractFile, error) {
 	data, err := os.ReadFile(path)
@@ -264,6 +272,37 @@ func parseContractFile(path, pkgPath string) (*ContractFile, error) {
 			curSlot = nil
 		case "pure_param":
 			cur.PureParams = append(cur.PureParams, fields[1:]...)
+			curSlot = nil
+		case "ghost_set":
+			// ghost_set <name> = <expr>: ghost assignment executed when the function returns
+			// (expr is evaluated in the final state; old() refers to the entry state)
+			eq := strings.Index(rest, "=")
+			if eq < 0 {
+				return nil, fmt.Errorf("%s:%d: ghost_set <name> = <expr>", path, ln+1)
+			}
+			gname := strings.TrimSpace(rest[:eq])
+			var tmp []Clause
+			addClause(&tmp, strings.TrimSpace(rest[eq+1:]), ln+1)
+			cc := cur
+			pp := pend[len(pend)-1]
+			copyBack = append(copyBack, func() { cc.GhostSets = append(cc.GhostSets, GhostSet{gname, *pp.c}) })
+			curSlot = nil
+		case "at_call":
+			// at_call <callee name> requires <expr over the callee's parameters>: an extra
+			// obligation of THIS function at each of its calls of that callee
+			if len(fields) < 4 || fields[2] != "requires" {
+				return nil, fmt.Errorf("%s:%d: at_call <callee> requires <expr>", path, ln+1)
+			}
+			if cur.AtCall == nil {
+				cur.AtCall = map[string][]Clause{}
+			}
+			after := strings.TrimSpace(strings.TrimPrefix(strings.TrimSpace(strings.TrimPrefix(rest, fields[1])), "requires"))
+			var tmp []Clause
+			addClause(&tmp, after, ln+1)
+			cc := cur
+			callee := fields[1]
+			pp := pend[len(pend)-1]
+			copyBack = append(copyBack, func() { cc.AtCall[callee] = append(cc.AtCall[callee], *pp.c) })
 			curSlot = nil
 		case "impl":
 			// impl <interface type name> <concrete type>
